@@ -45,7 +45,9 @@ UTiles == { << [name |-> "a", extent |-> 4096, version |-> 2, feats |-> fa],
                [name |-> "b", extent |-> 512, version |-> 1, feats |-> <<U1, U3>>],
                [name |-> "c", extent |-> 256, version |-> 2, feats |-> <<>>] >> : fa \in USeqs }
 \* data table rows (without the id column; the id column is added when include_id is set)
-Rows == { << [id |-> "r1", idv |-> V("s", "r1"), props |-> << P("k", V("s", "new")), P("pop", V("n", "9")) >>] >>,
+\* (the first table is EMPTY: a data source with a header line and no rows)
+Rows == { <<>>,
+          << [id |-> "r1", idv |-> V("s", "r1"), props |-> << P("k", V("s", "new")), P("pop", V("n", "9")) >>] >>,
           << [id |-> "r1", idv |-> V("s", "r1"), props |-> << P("k", V("s", "new")), P("pop", V("n", "9")) >>],
              [id |-> "5", idv |-> V("n", "5"), props |-> << P("k", V("s", "five")), P("pop", V("n", "0")) >>] >> }
 WithId(rows, inc) == [i \in 1..Len(rows) |->
